@@ -271,13 +271,18 @@ func HonestAttester(i int) string {
 // arbitrary 65*t bytes (the harness assumes that they satisfy the attestation rule); natively real
 // signatures over keccak256(msg), ordered by signer address, recovery ids 0/1.
 func HonestAttestation(name string, msg []byte, t int) []byte {
+	return HonestAttestationBy(name, msg, 0, t)
+}
+
+// PRIMITIVE. HonestAttestationBy is an attestation of msg by the honest attesters first..first+t-1.
+func HonestAttestationBy(name string, msg []byte, first, t int) []byte {
 	digest := ethcrypto.Keccak256(msg)
 	type sg struct {
 		addr []byte
 		sig  []byte
 	}
 	var sigs []sg
-	for i := 0; i < t; i++ {
+	for i := first; i < first+t; i++ {
 		k := seededKey(7, i)
 		s, err := ethcrypto.Sign(digest, k)
 		if err != nil {
